@@ -77,7 +77,10 @@ type eventOwner struct {
 	notify    bool
 	consumers int32
 
-	last lib.QueueMPSC
+	// the buffer of the last N messages is a queue in 'flush' mode, which
+	// must not be used concurrently: publishers and subscribers take lastMutex
+	lastMutex sync.Mutex
+	last      lib.QueueMPSC
 }
 
 func createTargetManager(tm gen.TargetManager) gen.TargetManager {
